@@ -4,6 +4,7 @@ go 1.23
 
 require (
 	github.com/anishathalye/porcupine v1.3.0
+	github.com/gin-gonic/gin v1.6.3
 	github.com/go-kit/log v0.2.0
 	github.com/prometheus/client_golang v1.12.1
 	github.com/prometheus/prometheus v2.28.1+incompatible
@@ -29,7 +30,6 @@ require (
 	github.com/felixge/httpsnoop v1.0.2 // indirect
 	github.com/gin-contrib/pprof v1.3.0 // indirect
 	github.com/gin-contrib/sse v0.1.0 // indirect
-	github.com/gin-gonic/gin v1.6.3 // indirect
 	github.com/go-logfmt/logfmt v0.5.1 // indirect
 	github.com/go-logr/logr v1.2.2 // indirect
 	github.com/go-logr/stdr v1.2.2 // indirect
